@@ -1,0 +1,164 @@
+//go:build verif
+
+package hsmsss
+
+import (
+	"context"
+	"errors"
+	"io"
+	"net"
+	"os"
+	"sync"
+	"time"
+
+	"github.com/arloliu/go-secs/v2/hsms"
+)
+
+// Verification hooks for the receive path (add-only, compiled only with -tags verif).
+
+// VerifRecvEvent is one thing the real recvLoop did with the runtime back-channel.
+type VerifRecvEvent struct {
+	// Kind is "deliver" (rt.DeliverOwnedFrame), "send" (rt.SendAsync, e.g. a Reject.req or a
+	// Linktest.rsp), "route" (rt.RouteReply), "down" (rt.TCPDown) or "selectlost".
+	Kind  string
+	Bytes []byte // the frame handed over / the serialised outbound message
+	Err   string // TCPDown cause
+	// Timeout / EOF classify the TCPDown cause: a read-deadline expiry (T8) / the peer closing the stream.
+	Timeout bool
+	EOF     bool
+}
+
+// VerifRecv is a running receive loop over a caller-supplied net.Conn.
+type VerifRecv struct {
+	mu     sync.Mutex
+	events []VerifRecvEvent
+	allocs []int
+	done   chan struct{}
+	cancel context.CancelFunc
+}
+
+// Events returns a snapshot of what the receive loop did so far.
+func (r *VerifRecv) Events() []VerifRecvEvent {
+	r.mu.Lock()
+	defer r.mu.Unlock()
+
+	return append([]VerifRecvEvent(nil), r.events...)
+}
+
+// Allocs returns the sizes requested from the frame allocator (production allocator is used).
+func (r *VerifRecv) Allocs() []int {
+	r.mu.Lock()
+	defer r.mu.Unlock()
+
+	return append([]int(nil), r.allocs...)
+}
+
+// Done is closed when recvLoop has returned.
+func (r *VerifRecv) Done() <-chan struct{} { return r.done }
+
+func (r *VerifRecv) add(e VerifRecvEvent) {
+	r.mu.Lock()
+	r.events = append(r.events, e)
+	r.mu.Unlock()
+}
+
+// verifRuntime is a recording hsms.TransportRuntime: Selected, T8 as given, no T7, no linktest.
+type verifRuntime struct {
+	rec   *VerifRecv
+	t8    time.Duration
+	state hsms.ConnState
+	sys   uint32
+}
+
+func (v *verifRuntime) TCPUp(net.Conn) {}
+func (v *verifRuntime) TCPDown(cause error) {
+	var ne net.Error
+	v.rec.add(VerifRecvEvent{
+		Kind: "down", Err: cause.Error(),
+		Timeout: errors.Is(cause, os.ErrDeadlineExceeded) || (errors.As(cause, &ne) && ne.Timeout()),
+		EOF:     errors.Is(cause, io.EOF) || errors.Is(cause, io.ErrUnexpectedEOF) || errors.Is(cause, io.ErrClosedPipe),
+	})
+}
+func (v *verifRuntime) CommitSelected() bool { return false }
+func (v *verifRuntime) SelectLost()          { v.rec.add(VerifRecvEvent{Kind: "selectlost"}) }
+func (v *verifRuntime) T7Expired()           {}
+func (v *verifRuntime) DeliverOwnedFrame(frame []byte) error {
+	v.rec.add(VerifRecvEvent{Kind: "deliver", Bytes: append([]byte(nil), frame...)})
+	return nil
+}
+
+func (v *verifRuntime) RouteReply(msg hsms.Message) bool {
+	v.rec.add(VerifRecvEvent{Kind: "route", Bytes: msg.ToBytes()})
+	return true
+}
+func (v *verifRuntime) RouteData(*hsms.DataMessage) error { return nil }
+func (v *verifRuntime) WriteMessage(_ context.Context, msg hsms.Message) (hsms.Message, error) {
+	v.rec.add(VerifRecvEvent{Kind: "send", Bytes: msg.ToBytes()})
+	return msg, nil
+}
+
+func (v *verifRuntime) WriteMessageNoReply(_ context.Context, msg hsms.Message) error {
+	v.rec.add(VerifRecvEvent{Kind: "send", Bytes: msg.ToBytes()})
+	return nil
+}
+
+func (v *verifRuntime) SendAsync(_ context.Context, msg hsms.Message) error {
+	v.rec.add(VerifRecvEvent{Kind: "send", Bytes: msg.ToBytes()})
+	return nil
+}
+func (v *verifRuntime) State() hsms.ConnState { return v.state }
+func (v *verifRuntime) Done() <-chan struct{} { return nil }
+func (v *verifRuntime) Timers() hsms.TimerConfig {
+	return hsms.TimerConfig{T8: v.t8, T6: time.Second, T3: time.Second}
+}
+func (v *verifRuntime) SessionID() uint16               { return 0xFFFF }
+func (v *verifRuntime) LinktestInterval() time.Duration { return 0 }
+func (v *verifRuntime) LinktestFailThreshold() int      { return 1 }
+func (v *verifRuntime) NextSystemBytes() [4]byte {
+	v.sys++
+	return hsms.ToSystemBytes(v.sys)
+}
+
+// VerifStartRecv runs the REAL per-generation receive goroutine (recvLoop → readFrame → readN →
+// dispatchFrame) over conn with the given T8, against a recording runtime that reports the given
+// state. The production frame allocator is used; its request sizes are recorded.
+func VerifStartRecv(conn net.Conn, t8 time.Duration, selected bool) (*VerifRecv, error) {
+	cfg, err := NewConfig("127.0.0.1", 1)
+	if err != nil {
+		return nil, err
+	}
+
+	ctx, cancel := context.WithCancel(context.Background())
+	rec := &VerifRecv{done: make(chan struct{}), cancel: cancel}
+	st := hsms.NotSelectedState
+	if selected {
+		st = hsms.SelectedState
+	}
+
+	t := newTransport(cfg)
+	t.rt = &verifRuntime{rec: rec, t8: t8, state: st}
+	t.conn = conn
+	t.genCtx = ctx
+	prod := t.allocFrame
+	t.allocFrame = func(n int) []byte {
+		rec.mu.Lock()
+		rec.allocs = append(rec.allocs, n)
+		rec.mu.Unlock()
+
+		return prod(n)
+	}
+
+	g := &genWG{}
+	g.recv.Add(1)
+
+	go func() {
+		t.recvLoop(g)
+		close(rec.done)
+	}()
+
+	return rec, nil
+}
+
+// Stop cancels the generation context (so a late read error is not reported as a drop) — the caller
+// closes the conn to unblock the loop.
+func (r *VerifRecv) Stop() { r.cancel() }
